@@ -35,6 +35,7 @@ Step ==
               /\ UNCHANGED <<tconn, pend>>
          [] e.op = "broker_error" -> q' = Append(q, <<"terr">>) /\ UNCHANGED <<tconn, pend>>
          [] e.op = "read_start" -> pend' = pend + 1 /\ UNCHANGED <<tconn, q>>
+         [] e.op = "read_cancelled" -> pend' = pend - 1 /\ UNCHANGED <<tconn, q>>     \* the caller gave up; nothing was delivered to it
          [] e.op = "read_done" ->
               /\ q # <<>>                                   \* nothing is read that was not delivered
               /\ IF Head(q)[1] = "line" THEN (e.res = "line" /\ e.s = Head(q)[2]) ELSE e.res = "terr"
